@@ -378,3 +378,84 @@ CLOSING = Harness(
     stubs=STUBS_COMMON,
 )
 HARNESSES.append(CLOSING)
+
+
+# ------------------------------------------------------------------ parameterised generics as resource types
+ALIASES = ["list[int]", "dict[str, int]", "int | str", "typing.Optional[int]"]
+
+
+def alias_params(tier):
+    return [P("alias", 0, 3), P("how", 0, 2), P("child", 0, 1)]
+
+
+@guard
+def alias_fn(a, tier):
+    import typing
+
+    al, how, child = pick(a["alias"], 4), pick(a["how"], 3), pick(a["child"], 2)
+    mk = lambda: eval(ALIASES[al], {"typing": typing})  # noqa: E731 - every evaluation gives an equal but NOT identical alias object
+    out = {}
+
+    async def main():
+        async with Context() as parent:
+            value = Val("registered-under-an-alias")
+            made = []
+
+            def factory():
+                made.append(1)
+                return value
+
+            if how == 0:
+                parent.add_resource(value, "x", mk())
+            elif how == 1:
+                parent.add_resource(value, "x", [mk()])
+            else:
+                parent.add_resource_factory(factory, "x", types=[mk()])
+            ctx = parent
+            if child:
+                ctx = Context()
+                await ctx.__aenter__()
+            out["nowait"] = ctx.get_resource_nowait(mk(), "x")
+            out["await"] = await ctx.get_resource(mk(), "x")
+            out["all"] = dict(ctx.get_resources(mk()))
+            try:
+                ctx.add_resource(Val("second"), "x", mk())
+                out["conflict"] = None
+            except Exception as e:
+                out["conflict"] = type(e).__name__
+            out["after"] = ctx.get_resource_nowait(mk(), "x")
+            out["made"] = len(made)
+            out["value"] = value
+            if child:
+                await ctx.__aexit__(None, None, None)
+
+    _, exc, _k = run(main)
+    summary = {"type": ALIASES[al], "registered_by": ["add_resource(types=alias)", "add_resource(types=[alias])", "add_resource_factory(types=[alias])"][how],
+               "looked_up_in": "child context" if child else "same context"}
+    if exc is not None:
+        return FAIL(f"alias:raised:{type(exc).__name__}:{ALIASES[al]}", repr(exc), summary)
+    v = out["value"]
+    if out["nowait"] is not v or out["await"] is not v or out["after"] is not v:
+        return FAIL(f"alias:pairwise-lookups-differ:{ALIASES[al]}", f"{out}", summary)
+    if out["all"] != {"x": v}:
+        return FAIL(f"alias:get_resources-disagrees-with-the-pairwise-lookups:{ALIASES[al]}", f"get_resources -> {out['all']}", summary)
+    if out["conflict"] != "ResourceConflict":
+        return FAIL(f"alias:second-add-under-an-equal-alias-not-refused:{ALIASES[al]}", out["conflict"], summary)
+    if how == 2 and out["made"] != 1:
+        return FAIL("alias:factory-calls", out["made"], summary)
+    return OK(summary, True)
+
+
+ALIAS = Harness(
+    prop="C03",
+    name="T-alias",
+    fn=alias_fn,
+    params=alias_params,
+    cube=lambda tier: 0,
+    title="parameterised generics and unions as resource types: every evaluation of the alias is an equal but distinct object",
+    bound_text=lambda tier: "type in {" + ", ".join(ALIASES) + "} x registered as resource / list of types / factory x looked up in the same / a child context",
+    oracle="all lookup paths, each with a freshly evaluated alias, return the registered object; a second add under an equal alias raises ResourceConflict",
+    outside="-",
+    stubs=STUBS_COMMON,
+)
+HARNESSES.append(ALIAS)
